@@ -246,3 +246,60 @@ pub proof fn lemma_alg7_inverts_alg3(owner_pw: Seq<u8>, user_pw: Seq<u8>, revisi
 }
 
 pub fn is_empty_slice(a: &[u8]) -> (r: bool) ensures r == (a@.len() == 0) { a.len() == 0 }
+
+// ---- Revisions 5 and 6: Algorithms 11 and 12 over an uninterpreted Algorithm 2.B -----------------------------------------
+/// Algorithm 2.B (R6) / SHA-256 (R5) of password ++ salt ++ user key. ASSUMED: compute_hash computes it; its loop of SHA-2 and
+/// AES rounds is not under contract here (c06-interop runs it against an independent implementation).
+pub uninterp spec fn hash2b(revision: int, pw: Seq<u8>, salt: Seq<u8>, ukey: Option<Seq<u8>>) -> Seq<u8>;
+impl PasswordAlgorithm {
+    #[verifier::external_body]
+    pub fn compute_hash(&self, password: &[u8], salt: &[u8], user_key: Option<&[u8]>) -> (r: core::result::Result<Vec<u8>, DecryptionError>)
+        ensures r is Ok, r->Ok_0@ == hash2b(self.revision as int, password@, salt@, match user_key { Some(k) => Some(k@), None => None }), r->Ok_0@.len() == 32
+    { unimplemented!() }
+}
+#[verifier::external_body]
+pub fn subslice(v: &[u8], from: usize, n: usize) -> (r: &[u8])
+    requires from + n <= v@.len()
+    ensures r@ == v@.subrange(from as int, from + n)
+{ &v[from..][..n] }
+#[verifier::external_body]
+pub fn slice_eq_vec(a: &Vec<u8>, b: &[u8]) -> (r: bool) ensures r == (a@ == b@) { a.as_slice() == b }
+/// step a of Algorithms 2.A, 8, 9, 11, 12: the first 127 bytes of the UTF-8 password
+pub open spec fn pw127(pw: Seq<u8>) -> Seq<u8> { if pw.len() > 127 { pw.subrange(0, 127) } else { pw } }
+/// Algorithm 11: hash of password ++ user validation salt (U[32..40]) equals U[0..32]
+pub open spec fn alg11_ok(a: &PasswordAlgorithm, pw: Seq<u8>) -> bool {
+    hash2b(a.revision as int, pw127(pw), a.user_value@.subrange(32, 40), None) == a.user_value@.subrange(0, 32)
+}
+/// Algorithm 12: hash of password ++ owner validation salt (O[32..40]) ++ the 48-byte U equals O[0..32]
+pub open spec fn alg12_ok(a: &PasswordAlgorithm, pw: Seq<u8>) -> bool {
+    hash2b(a.revision as int, pw127(pw), a.owner_value@.subrange(32, 40), Some(a.user_value@)) == a.owner_value@.subrange(0, 32)
+}
+
+// ---- Algorithm 2.A: the file encryption key, revisions 5 and 6 --------------------------------------------------------
+/// AES-256, CBC, no padding, initialisation vector of zero (ASSUMED: the aes / cbc crates compute it)
+pub uninterp spec fn aes256_cbc0_dec(key: Seq<u8>, data: Seq<u8>) -> Seq<u8>;
+#[verifier::external_body]
+pub fn aes256_cbc_zero_iv_decrypt(key: &Vec<u8>, data: &[u8]) -> (r: Vec<u8>)
+    requires key@.len() == 32
+    ensures r@ == aes256_cbc0_dec(key@, data@)
+{ unimplemented!() }
+/// Algorithm 13 as a predicate on the candidate file key (its own contract is stated where it is verified)
+pub uninterp spec fn perms_valid(a: &PasswordAlgorithm, file_key: Seq<u8>) -> bool;
+impl PasswordAlgorithm {
+    #[verifier::external_body]
+    pub fn validate_permissions(&self, file_encryption_key: &[u8]) -> (r: core::result::Result<(), DecryptionError>)
+        ensures r is Ok <==> perms_valid(self, file_encryption_key@)
+    { unimplemented!() }
+}
+pub open spec fn alg2a(a: &PasswordAlgorithm, pw: Seq<u8>) -> Option<Seq<u8>> {
+    let p = pw127(pw);
+    let rev = a.revision as int;
+    if alg12_ok(a, pw) {
+        // owner password: the intermediate key hashes password ++ owner key salt (O[40..48]) ++ U and unwraps OE
+        Some(aes256_cbc0_dec(hash2b(rev, p, a.owner_value@.subrange(40, 48), Some(a.user_value@)), a.owner_encrypted@))
+    } else if alg11_ok(a, pw) {
+        // user password: password ++ user key salt (U[40..48]) unwraps UE; the result must pass Algorithm 13
+        let k = aes256_cbc0_dec(hash2b(rev, p, a.user_value@.subrange(40, 48), None), a.user_encrypted@);
+        if perms_valid(a, k) { Some(k) } else { None }
+    } else { None }
+}
